@@ -2107,7 +2107,9 @@ static WBXMLError parse_attr_value(WBXMLParser  *parser,
         return WBXML_ERROR_UNKNOWN_ATTR_VALUE;
     }
 
-    *result = wbxml_buffer_sta_create_from_cstr(parser->langTable->attrValueTable[index].xmlName);
+    if ((*result = wbxml_buffer_sta_create_from_cstr(parser->langTable->attrValueTable[index].xmlName)) == NULL) {
+        return WBXML_ERROR_NOT_ENOUGH_MEMORY;
+    }
 
     return WBXML_OK;
 }
